@@ -157,8 +157,28 @@ func (e *Executor) RunTask(ctx context.Context, call *Call) error {
 			return err
 		}
 
+		// Get the fingerprinting method to use
+		method := e.Taskfile.Method
+		if t.Method != "" {
+			method = t.Method
+		}
+
 		skipFingerprinting := e.ForceAll || (!call.Indirect && e.Force)
-		if !skipFingerprinting {
+		if skipFingerprinting {
+			// A forced run does not ask whether the task is up to date, but it
+			// is a run like any other: record the fingerprint of its sources,
+			// so that the next unforced run finds nothing to do (a failure
+			// forgets the record again, see statusOnError)
+			if len(t.Sources) > 0 {
+				checker, err := fingerprint.NewSourcesChecker(method, e.TempDir.Fingerprint, e.Dry)
+				if err != nil {
+					return err
+				}
+				if _, err := checker.IsUpToDate(t); err != nil {
+					return err
+				}
+			}
+		} else {
 			if err := ctx.Err(); err != nil {
 				return err
 			}
@@ -166,12 +186,6 @@ func (e *Executor) RunTask(ctx context.Context, call *Call) error {
 			preCondMet, err := e.areTaskPreconditionsMet(ctx, t)
 			if err != nil {
 				return err
-			}
-
-			// Get the fingerprinting method to use
-			method := e.Taskfile.Method
-			if t.Method != "" {
-				method = t.Method
 			}
 
 			upToDate, err := fingerprint.IsTaskUpToDate(ctx, t,
